@@ -21,7 +21,7 @@ inline Operator poly_from_json(const json& poly) {
     }
     return R;
 }
-inline json op_entries(const Operator& O, int M) {
+inline json op_entries(const Operator& O, int M, long den = 1) {
     json e = json::array();
     unsigned long NS = 1ul << M;
     for (unsigned long k = 0; k < NS; ++k) {
@@ -33,7 +33,7 @@ inline json op_entries(const Operator& O, int M) {
             // actRight and getMatrixElement must tell the same story
             MelemType w = img.count(bra) ? img[bra] : MelemType(0);
             if (v != w) e.push_back(json::array({(long)b, (long)k, "actRight-mismatch", "x"}));
-            else if (v != MelemType(0)) e.push_back(json::array({(long)b, (long)k, exact_num(mre(v), 1), exact_num(mim(v), 1)}));
+            else if (v != MelemType(0)) e.push_back(json::array({(long)b, (long)k, exact_num(mre(v), den), exact_num(mim(v), den)}));
         }
     }
     return e;
@@ -79,7 +79,15 @@ inline void run_algebra(const json& sc) {
         r["mul"] = op_entries(A * B, M);
         r["add"] = op_entries(A + B, M);
         r["sub"] = op_entries(A - B, M);
-        r["scale"] = op_entries(A * alpha, M);
+        // "alpha_log2": k -- the scalar is alpha * 2^-k (exact in binary; entries are logged times 2^k): a scalar factor is a scalar factor at
+        // every magnitude; right and left multiplication and the compound assignment
+        const int al2 = sc.value("alpha_log2", 0);
+        const long den = 1L << al2;
+        alpha = alpha * MelemType(std::ldexp(1.0, -al2));
+        r["scale"] = op_entries(A * alpha, M, den);
+        r["scale_l"] = op_entries(alpha * A, M, den);
+        { Operator P = A; P *= alpha; r["scale_c"] = op_entries(P, M, den); }
+        if (al2) r["alpha_log2"] = al2;
         r["comm"] = op_entries(A.getCommutator(B), M);
         r["anti"] = op_entries(A.getAntiCommutator(B), M);
         r["neg"] = op_entries(-A, M);
